@@ -76,7 +76,7 @@ def cli_oracle_c19(clis):
             continue
         if c.status not in (0, 1, 64, 65, 70):
             bad.append((c, f'exit status {c.status}')); continue
-        if (c.status == 0) != (c.err == b''):
+        if c.status != 64 and (c.status == 0) != (c.err == b''):
             bad.append((c, f'status {c.status} but stderr {"empty" if not c.err else "not empty"}')); continue
         if c.status == 65 and c.out != b'':
             bad.append((c, 'a rejected script wrote to stdout')); continue
